@@ -495,9 +495,10 @@ class ModelOracle:
             exdrv._compare_pools(ex, self.mex, self.obs, t)
             exdrv._compare_states(self.built, t, "EX.states")
             R.probe("model_lockstep_ticks")
-        except Discard:
+        except Discard as d:
             self.off = True
             R.probe("model_lockstep_stopped_in_band")
+            R.probe("band:" + str(d))
 
     def on_end(self, R, stats):
         for k, v in self.mex.probes().items():
